@@ -85,8 +85,8 @@ def tofile_seam(darr, plan):
         yield plan
         return
 
-    def wrapped(self, array):
-        out = orig(self, array)
+    def wrapped(self, array, *args, **kw):
+        out = orig(self, array, *args, **kw)
         if isinstance(out, np.ndarray):
             plan.engaged += 1
             fa = out.view(FaultyArray)
